@@ -143,4 +143,3 @@ func isRefType(t types.Type) bool {
 	}
 	return false
 }
-
